@@ -360,6 +360,11 @@ def run_one(pid, report_pid, tier, seed, replay_payload):
         hist[cl] = hist.get(cl, 0) + 1
         if nontrivial(c, r):
             distinct.add(c)
+    # a generated case that both sides refuse to parse compares equal ("bad-case" = "bad-case") and tests nothing:
+    # counted, written to the evidence and printed, so that a generator slip cannot hide behind the diff
+    bad_cases = [c for n, c in enumerate(cases) if (first.get(n) or "").startswith("bad-case")]
+    if bad_cases:
+        out_lines.append(f"note: {len(bad_cases)} generated case(s) are rejected as bad-case by the harness, e.g. {bad_cases[0][:160]}")
     samples = []
     step = max(1, len(cases) // 5)
     for n in range(0, len(cases), step):
@@ -479,6 +484,7 @@ def run_one(pid, report_pid, tier, seed, replay_payload):
         "oracle_failures": len(oracle),
         "known_findings_matched": [k["id"] for k, _, _ in known_hits],
         "failing_input_search": search or {"ran": False},
+        "bad_cases": len(bad_cases),
         "profiles": profiles,
         "class_histogram": dict(sorted(hist.items(), key=lambda kv: -kv[1])[:60]),
         "explanation": cfg.get("explanation", ""),
